@@ -239,6 +239,142 @@ class Out:
             self.origin.append(("contract", file, ln, fn))
 
 
+def _split_guarded_or_arms(text):
+    """R12b (automatic): Verus rejects a match arm that has BOTH an or-pattern and a guard
+    (`A(x) | B(x) if g => body`).  Such an arm is split into one arm per alternative with the same
+    guard and the same body tokens (`A(x) if g => body  B(x) if g => body`), which is what the
+    or-pattern means.  The copies are laid out on the arm's first line (comments dropped from the
+    copies) so that the line count - and with it the map back to /repo - is preserved.
+    Returns (new_text, number_of_arms_split)."""
+    mask = rsx.code_mask(text)
+    n_split = 0
+    out = text
+    # scan for ` if ` ... `=>` on code positions
+    pos = 0
+    while True:
+        m = re.search(r"\bif\b", out[pos:])
+        if not m:
+            break
+        i = pos + m.start()
+        pos = i + 2
+        mask = rsx.code_mask(out)
+        if not mask[i]:
+            continue
+        # the guard must end in `=>` before any `{` / `;` at depth 0
+        j = i + 2
+        depth = 0
+        arrow = -1
+        while j < len(out) - 1:
+            if mask[j]:
+                c = out[j]
+                if c in "([{":
+                    if c == "{" and depth == 0:
+                        break
+                    depth += 1
+                elif c in ")]}":
+                    depth -= 1
+                    if depth < 0:
+                        break
+                elif c == ";" and depth == 0:
+                    break
+                elif c == "=" and out[j + 1] == ">" and depth == 0:
+                    arrow = j
+                    break
+            j += 1
+        if arrow < 0:
+            continue
+        # pattern: back from `if` to the previous arm end (`,` or `{` or `}` at depth 0)
+        k = i - 1
+        depth = 0
+        start = -1
+        while k >= 0:
+            if mask[k]:
+                c = out[k]
+                if c in ")]}":
+                    if c == "}" and depth == 0:
+                        start = k + 1
+                        break
+                    depth += 1
+                elif c in "([{":
+                    if depth == 0:
+                        start = k + 1
+                        break
+                    depth -= 1
+                elif c == "," and depth == 0:
+                    start = k + 1
+                    break
+            k -= 1
+        if start < 0:
+            continue
+        pat = out[start:i]
+        # top-level alternatives
+        alts, depth, cur = [], 0, ""
+        for q, c in enumerate(pat):
+            cm = mask[start + q]
+            if cm and c in "([{":
+                depth += 1
+            elif cm and c in ")]}":
+                depth -= 1
+            if cm and c == "|" and depth == 0:
+                alts.append(cur)
+                cur = ""
+            else:
+                cur += c
+        alts.append(cur)
+        alts = [a for a in alts]
+        if len(alts) < 2 or any(not a.strip() for a in alts):
+            continue
+        guard = out[i:arrow]
+        # body: from after `=>` to the end of the arm
+        b0 = arrow + 2
+        while b0 < len(out) and out[b0] in " \t":
+            b0 += 1
+        if b0 < len(out) and out[b0] == "{":
+            e = rsx.match_delim(out, mask, b0)
+            b1 = e + 1
+            # optional trailing comma
+            t = b1
+            while t < len(out) and out[t] in " \t":
+                t += 1
+            if t < len(out) and out[t] == ",":
+                b1 = t + 1
+        else:
+            q = b0
+            depth = 0
+            while q < len(out):
+                if mask[q]:
+                    c = out[q]
+                    if c in "([{":
+                        depth += 1
+                    elif c in ")]}":
+                        if depth == 0:
+                            break
+                        depth -= 1
+                    elif c == "," and depth == 0:
+                        q += 1
+                        break
+                q += 1
+            b1 = q
+        body = out[b0:b1]
+        # flattened, comment-free copy of guard + body for the extra arms
+        def flat(a, b):
+            return "".join((out[x] if mask[x] or out[x] in "\"'" else " ") if out[x] != "\n" else " " for x in range(a, b))
+        fguard = re.sub(r"\s+", " ", flat(i, arrow)).strip()
+        fbody = re.sub(r"\s+", " ", flat(b0, b1)).strip()
+        if not fbody.endswith(",") and not fbody.endswith("}"):
+            fbody += ","
+        elif fbody.endswith("}"):
+            fbody += ","
+        lead = re.match(r"\s*", alts[0]).group(0)
+        extra = " ".join("%s %s => %s" % (a.strip(), fguard, fbody) for a in alts[:-1])
+        new_first = lead + extra + " " + alts[-1].strip() + " "
+        nl_lost = pat.count("\n") - new_first.count("\n")
+        out = out[:start] + new_first + out[i:arrow] + out[arrow:b1] + ("\n" * max(nl_lost, 0)) + out[b1:]
+        n_split += 1
+        pos = start + len(new_first) + (arrow - i) + (b1 - arrow)
+    return out, n_split
+
+
 def _clause_tags(blocks):
     tags = {}
     for b in blocks:
@@ -485,6 +621,19 @@ def emit_item(spec, repo, out, stats, vspec_path, cache):
         pieces = new_pieces
     # apply rewrites on src pieces (literal, counted over the whole item)
     counts = {}
+    n12b_item = 0
+    if spec.kind in ("fn", "impl"):
+        n12b = 0
+        for i, p in enumerate(pieces):
+            if p[0] == "src":
+                t2, k2 = _split_guarded_or_arms(p[1])
+                if k2:
+                    pieces[i] = ("src", t2, p[2])
+                    n12b += k2
+        n12b_item = n12b
+        if n12b:
+            stats["rewrites"].setdefault("R12b", 0)
+            stats["rewrites"]["R12b"] += n12b
     for rid, want, old, new, ln in spec.rewrites:
         total = 0
         for i, p in enumerate(pieces):
@@ -504,7 +653,8 @@ def emit_item(spec, repo, out, stats, vspec_path, cache):
                     if old.count("\n") != new.count("\n"):
                         raise SystemExit("%s:%d: rewrite must preserve line count" % (vspec_path, ln))
                     pieces[i] = ("src", p[1].replace(old, new), p[2])
-        if total != want and not (want < 0 and total in (0, -want)) and want != 10 ** 9:
+        # (after R12b has duplicated an arm's body a rewrite inside it applies once per copy)
+        if total != want and not (want < 0 and total in (0, -want)) and want != 10 ** 9 and not (n12b_item and total > want > 0):
             raise Lost("%s: rewrite %s %r applied %d times, expected %d" % (fn, rid, old if isinstance(old, str) else old.pattern, total, want))
         stats["rewrites"].setdefault(rid, 0)
         stats["rewrites"][rid] += total
